@@ -54,6 +54,22 @@ CLAIMED = {
             "class (immediate from the definitions, as DESIGN says). The assurance for the code is the exhaustive correspondence: every "
             "public entry point x argument position x ill-typed kind x prior history, with the public API re-derived from the classes.",
             "Coq proof (by computation) + exhaustive vm_compute correspondence", "5/C18", ""),
+    "C06": ("Theorems over the database-level model: the pruning bookkeeping is exact GIVEN the traversal's events — 'counts = occ, db = support(occ)' "
+            "is preserved by a whole operation when its body persisted with multiplicities inc and requested prunes dec (C06_accounting); for "
+            "the real set/delete bodies all inc-side premises are discharged (C06_set_step/C06_delete_step); exact effect of "
+            "_complete_pruning; regenerate_ref_count only counts what it read. The schedule (inc/dec = occurrences gained/lost) is NOT "
+            "proved: exactness itself rests on the oracle (== regenerate_ref_count and == db key set after every call) + correspondence.",
+            "Coq proof (multiset/count arithmetic through the monadic model) + vm_compute correspondence + regenerate oracle after every call", "5/C06", ""),
+    "C09": ("Theorems (tree-level LTS, every schedule = every exploration order, every interleaving with set/delete, reads of current or stale "
+            "versions, simulated nodes): stable keys are met or still covered by the fog; complete fog => all stable keys met; no ghosts; "
+            "static trie => met == contents, each once; a step is always enabled; at most 17^(L+1) steps; the walk can always be finished. "
+            "The database-level walk (concrete cache, pruning, MissingTraversalNode retry) is tied by correspondence.",
+            "Coq proof (invariant over arbitrary schedules + potential function) + vm_compute correspondence of the D-level walk", "5/C09", ""),
+    "C13": ("Theorems (database-level model vs the tree it represents, any H with 32-byte outputs): get_branch refuses only absent "
+            "prefix-related keys and otherwise yields trie nodes validating the trie's own answer; ANY offered branch validates only the true "
+            "answer (explicit finite no-collision premise); check_if_branch_exist <=> some key starts with p; get_trie_nodes = all nodes; "
+            "witness = trie nodes sufficient for every key below the prefix, refused only past a leaf.",
+            "Coq proof (representation relation + determinism over content-addressed stores) + vm_compute correspondence with forged branches", "5/C13", ""),
     "C11": ("Theorems (closed): sorted prefix-free invariant of every reachable fog, explore = set replacement, exact rejection conditions, "
             "commutation of independent explorations, mark_all_complete = repeated explore, is_complete, serialize round trip, full "
             "specifications of nearest_unknown / nearest_right incl. when each exception is raised. Model = pure functions; receiver "
